@@ -230,6 +230,25 @@ theorem inv_writeFail (pol : Recycle) (s : St) (w : Nat) (hi : Inv s) : Inv (ste
     · pg
   · exact hi
 
+theorem inv_abort (pol : Recycle) (s : St) (w : Nat) (hi : Inv s) : Inv (step pol s (.abort w)) := by
+  simp only [step]
+  split
+  · next c id sl hpc =>
+    obtain ⟨h1, h2, h3, h4, h5, h6, h7, h8, h9, h10, h11⟩ := hi
+    constructor
+    · pg
+    · pg
+    · exact po_keep s w _ (by rw [hpc]; rfl) h3
+    · pg
+    · pg
+    · pg
+    · pg
+    · pg
+    · exact h9
+    · pg
+    · pg
+  · exact hi
+
 theorem inv_connClose (pol : Recycle) (s : St) (c : Nat) (hi : Inv s) : Inv (step pol s (.connClose c)) := by
   simp only [step]
   obtain ⟨h1, h2, h3, h4, h5, h6, h7, h8, h9, h10, h11⟩ := hi
@@ -340,6 +359,7 @@ theorem inv_step (s : St) (a : Act) (hi : Inv s) : Inv (step .whenReleased s a) 
   | take w => exact inv_take _ s w hi
   | cancel w => exact inv_cancel _ s w hi
   | writeFail w => exact inv_writeFail _ s w hi
+  | abort w => exact inv_abort _ s w hi
   | connClose c => exact inv_connClose _ s c hi
   | leave w => exact inv_leave s w hi
 
